@@ -207,3 +207,123 @@ Proof.
        end.
 Qed.
 End Inst.
+
+(* ---------------------------------------------------------------- related bodies are erased *)
+Lemma aeqn_list_erased e l l' : Forall2 (aeqn e) l l' -> map nn' l = l /\ map nn' l' = l'.
+Proof. induction 1 as [|a b l l' H _ [IH1 IH2]]; cbn [map]; [auto|]. destruct (aeqn_erased _ _ _ H) as [E1 E2]. split; congruence. Qed.
+
+Lemma aeq_erased :
+  (forall f g e, aeq e f g -> nf' f = f /\ nf' g = g) /\
+  (forall b b' e, aeq_brs e b b' -> nbs' b = b /\ nbs' b' = b').
+Proof.
+  apply form_branches_ind; intros.
+  all: try match goal with Ha : aeq _ _ ?g |- _ => destruct g; cbn [aeq] in Ha; try contradiction end.
+  all: try match goal with Ha : aeq_brs _ _ ?g |- _ => destruct g; cbn [aeq_brs] in Ha; try contradiction end.
+  all: repeat match goal with H : _ /\ _ |- _ => destruct H end.
+  all: repeat match goal with Hn : aeqn _ _ _ |- _ => apply aeqn_erased in Hn; destruct Hn as [? ?] end.
+  all: repeat match goal with Hn : Forall2 (aeqn _) _ _ |- _ => apply aeqn_list_erased in Hn; destruct Hn as [? ?] end.
+  all: repeat match goal with IH : forall g e, aeq e ?k g -> _, Ha : aeq _ ?k _ |- _ => destruct (IH _ _ Ha) as [? ?]; clear IH end.
+  all: repeat match goal with IH : forall g e, aeq_brs e ?k g -> _, Ha : aeq_brs _ ?k _ |- _ => destruct (IH _ _ Ha) as [? ?]; clear IH end.
+  all: cbn [nf' nbs']; split; congruence.
+Qed.
+
+(* ---------------------------------------------------------------- changing the correspondence *)
+Definition ext (e e' : benv) : Prop := forall l a b, var_rel (l ++ e) a b -> var_rel (l ++ e') a b.
+Lemma aeqn_ext e e' l a b : ext e e' -> aeqn (l ++ e) a b -> aeqn (l ++ e') a b.
+Proof. intros He. unfold aeqn. destruct (isvar a); [|auto]. intros (H1 & H2 & H3 & H4). auto. Qed.
+Lemma aeq_mono e e' : ext e e' ->
+  (forall f g l, aeq (l ++ e) f g -> aeq (l ++ e') f g) /\
+  (forall b b' l, aeq_brs (l ++ e) b b' -> aeq_brs (l ++ e') b b').
+Proof.
+  intros He. apply form_branches_ind; intros.
+  all: try match goal with Ha : aeq _ _ ?g |- _ => destruct g; cbn [aeq] in Ha; try contradiction end.
+  all: try match goal with Ha : aeq_brs _ _ ?g |- _ => destruct g; cbn [aeq_brs] in Ha; try contradiction end.
+  all: cbn [aeq aeq_brs]; repeat match goal with H : _ /\ _ |- _ => destruct H end.
+  all: repeat match goal with |- _ /\ _ => split end; eauto using aeqn_ext.
+  all: try match goal with
+       | |- aeq (bind ?a ?b (bind ?a2 ?b2 (?E1 ++ _))) ?k _ =>
+         match goal with IH : context [aeq _ k _] |- _ => apply (IH _ ((ident a, ident b) :: (ident a2, ident b2) :: E1)); assumption end
+       | |- aeq (bind ?a ?b (?E1 ++ _)) ?k _ =>
+         match goal with IH : context [aeq _ k _] |- _ => apply (IH _ ((ident a, ident b) :: E1)); assumption end
+       end.
+  match goal with H : Forall2 _ _ _ |- _ => induction H; constructor; eauto using aeqn_ext end.
+Qed.
+
+Lemma ext_snoc e x : ext e (e ++ [(x, x)]).
+Proof. intros l a b H. rewrite app_assoc. apply var_rel_snoc. exact H. Qed.
+Lemma ext_snoc_inv e x : ext (e ++ [(x, x)]) e.
+Proof. intros l a b H. rewrite app_assoc in H. apply var_rel_snoc in H. exact H. Qed.
+
+(* ---------------------------------------------------------------- the forms in which the steps use it *)
+Lemma isvar_nn'_eq c : isvar (nn' c) = isvar c.
+Proof.
+  unfold isvar. rewrite nn'_initialized, nn'_is_self. unfold nn'.
+  destruct (initialized c) eqn:E1; cbn; [reflexivity|]. destruct (is_self c); cbn; reflexivity.
+Qed.
+Lemma nonvar_ident_nn' c : isvar c = false -> ident (nn' c) = "".
+Proof.
+  unfold isvar, nn'. destruct (initialized c); cbn; [reflexivity|]. destruct (is_self c); cbn; [reflexivity|].
+  destruct (String.eqb_spec (ident c) ""); [auto | discriminate].
+Qed.
+
+(* instantiating the top entry; the replacement may carry any identifier *)
+Lemma aeq_subst_top e X Y c c' k k' : bnd X Y -> isvar c = false -> nn' c' = nn' c ->
+  aeq ((ident X, ident Y) :: e) k k' -> aeq e (nf' (subst X c k)) (nf' (subst Y c' k')).
+Proof.
+  intros (B1 & B2 & _ & _ & B5 & B6) Hc Ec H.
+  rewrite <- (proj1 (subst_D X c)), <- (proj1 (subst_D Y c')), Ec.
+  assert (Hv : isvar (nn' c) = false) by now rewrite isvar_nn'_eq.
+  pose proof (proj1 (aeq_subst_gen X Y (nn' c) e B1 B2 B5 B6 Hv (nonvar_ident_nn' c Hc)) k k' [] true true) as G.
+  cbn [app msub] in G. assert (G' : aeq e (subst X (nn' c) k) (subst Y (nn' c) k')).
+  { apply G; [|exact H]. split; cbn; auto. }
+  destruct (proj1 aeq_erased _ _ _ G') as [E1 E2]. now rewrite E1, E2.
+Qed.
+
+(* instantiating an identifier that is free on both sides *)
+Lemma aeq_subst_free e X c c' f g : chan X = None -> ident X <> "" -> isvar c = false -> nn' c' = nn' c ->
+  ~ In (ident X) (map fst e) -> ~ In (ident X) (map snd e) ->
+  aeq e f g -> aeq e (nf' (subst X c f)) (nf' (subst X c' g)).
+Proof.
+  intros HX NX Hc Ec N1 N2 H.
+  rewrite <- (proj1 (subst_D X c)), <- (proj1 (subst_D X c')), Ec.
+  assert (Hv : isvar (nn' c) = false) by now rewrite isvar_nn'_eq.
+  pose proof (proj1 (aeq_mono e (e ++ [(ident X, ident X)]) (ext_snoc e (ident X))) f g [] H) as H'. cbn [app] in H'.
+  pose proof (proj1 (aeq_subst_gen X X (nn' c) [] HX HX NX NX Hv (nonvar_ident_nn' c Hc)) f g e true true) as G.
+  cbn [msub] in G. rewrite app_nil_r in G.
+  assert (G' : aeq e (subst X (nn' c) f) (subst X (nn' c) g)) by (apply G; [split; assumption | exact H']).
+  destruct (proj1 aeq_erased _ _ _ G') as [E1 E2]. now rewrite E1, E2.
+Qed.
+
+(* ---------------------------------------------------------------- a channel for a channel (DUP) *)
+Lemma name_equal_binder_chan x old : chan x = None -> initialized old = true -> name_equal x old = false.
+Proof. intros H1 H2. unfold name_equal, initialized in *. rewrite H1. cbn. destruct (chan old); [|discriminate]. cbn. apply andb_false_r. Qed.
+
+Lemma aeqn_subst_chan e old new a b : initialized old = true -> initialized new = true -> ident new = "" ->
+  aeqn e a b -> aeqn e (name_subst old new a) (name_subst old new b).
+Proof.
+  intros Ho Hn Hi. unfold aeqn. destruct (isvar a) eqn:Ea.
+  - intros (Eb & H). destruct (isvar_facts a Ea) as (A1 & _). destruct (isvar_facts b Eb) as (B1 & _).
+    assert (E1 : name_subst old new a = a) by (unfold name_subst, initialized in *; rewrite A1; destruct (chan old); [reflexivity | discriminate]).
+    assert (E2 : name_subst old new b = b) by (unfold name_subst, initialized in *; rewrite B1; destruct (chan old); [reflexivity | discriminate]).
+    rewrite E1, E2, Ea. auto.
+  - intros [<- Ia]. unfold name_subst. rewrite Ho, Hi, Ia. cbn [negb andb].
+    destruct (initialized a && chan_eqb (chan a) (chan old)) eqn:E.
+    + unfold isvar, initialized in *. cbn [chan is_self ident]. destruct (chan new); [|discriminate]. cbn. auto.
+    + rewrite andb_false_r. cbn. rewrite Ea. auto.
+Qed.
+
+Lemma aeq_subst_chan old new : initialized old = true -> initialized new = true -> ident new = "" ->
+  (forall f g e, aeq e f g -> aeq e (subst old new f) (subst old new g)) /\
+  (forall b b' e, aeq_brs e b b' -> aeq_brs e (subst_brs old new b) (subst_brs old new b')).
+Proof.
+  intros Ho Hn Hi. apply form_branches_ind; intros.
+  all: try match goal with Ha : aeq _ _ ?g |- _ => destruct g; cbn [aeq] in Ha; try contradiction end.
+  all: try match goal with Ha : aeq_brs _ _ ?g |- _ => destruct g; cbn [aeq_brs] in Ha; try contradiction end.
+  all: repeat match goal with H : _ /\ _ |- _ => destruct H end.
+  all: cbn [subst subst_brs].
+  all: repeat match goal with B : bnd ?x ?y |- _ =>
+         rewrite ?(name_equal_binder_chan x old (proj1 B) Ho), ?(name_equal_binder_chan y old (proj1 (proj2 B)) Ho);
+         revert B end; intros; cbn [negb andb aeq aeq_brs].
+  all: repeat match goal with |- _ /\ _ => split end; auto using aeqn_subst_chan.
+  match goal with H : Forall2 _ _ _ |- _ => induction H; cbn [map]; constructor; auto using aeqn_subst_chan end.
+Qed.
